@@ -91,28 +91,11 @@ def r3(cx, rec):
             rec.site(f, bb, 'reads key "%s"' % k)
     extra = set(keys) - {'interval', 'peers', 'failure reason', 'ip', 'peer id', 'port'}
     rec.need(not extra, 'key-unknown', 'tracker_resp', None, 'unexpected keys read: %s' % sorted(extra))
-    # field <- key agreement in the PeerAddr aggregate
-    for f in F.user_fns():
-        for bi, si, e in mirq.agg_sites(f, r'^tracker_resp::PeerAddr$'):
-            fields = dict(e[4])
-            rec.site(f, bi, 'PeerAddr{%s}' % ', '.join('%s: %s' % (n, show(v)[-28:]) for n, v in fields.items()))
-            # each field must come from the tuple component built from its own key: component order (ip, peer id, port)
-            for n, comp in (('ip', '0'), ('peer_id', '1'), ('port', '2')):
-                v = fields.get(n)
-                s = show(v) if v else ''
-                rec.need(v is not None and re.search(r'\.%s<Ok>\.0$' % comp, s) is not None, 'peeraddr/' + n, f, bi,
-                         'PeerAddr.%s is built from %s' % (n, s[-80:]))
-        for bi, si, s in f.assigns():
-            if f.path.startswith('tracker_resp::') and s['rv']['k'] == 'agg' and s['rv'].get('ak') == 'tuple' and len(s['rv']['ops']) == 3:
-                x = f.expr_rvalue(s['rv'])
-                srcs = [show(v) for _, v in x[4]]
-                if all(v[0] == 'call' and v[4].get('name') == 'get' for _, v in x[4]):
-                    order = []
-                    for y in srcs:
-                        m = re.findall(r'b"([a-z ]+)"', y)
-                        order.append(m[-1] if m else '?')
-                    rec.site(f, bi, 'entry tuple order %s' % order)
-                    rec.need(order == ['ip', 'peer id', 'port'], 'entry-tuple-order', f, bi, 'entry tuple is built from keys %s' % order)
+    # field <- key agreement in the PeerAddr records (adaptor chain or explicit loop; fields normalised over the list element)
+    lf = [f for f in F.user_fns() if f.locals[0]['ty'] == 'std::vec::Vec<tracker_resp::PeerAddr>' and f.argc >= 1 and 'BValue' in f.locals[f.argc]['ty']]
+    L = C.one(lf, 'peer list builder (Vec<BValue> -> Vec<PeerAddr>)')
+    C.check_list_records(F, rec, L, r'^tracker_resp::PeerAddr$',
+                         {'ip': ('ip', 'ByteStr'), 'peer_id': ('peer id', 'ByteStr'), 'port': ('port', 'Int')}, 'peeraddr')
     # peers(): map over self.peers producing (ip + ":" + port, peer_id)
     pf = [f for f in F.user_fns() if f.self_ty == 'tracker_resp::TrackerResp' and f.name == 'peers']
     P = C.one(pf, 'TrackerResp::peers')
@@ -133,13 +116,12 @@ def r3(cx, rec):
                 rec.site(cf, bi, 'yields (%s, %s)' % (sa[-70:], pb))
                 rec.need(okk, 'peers-address-format', cf, bi, 'address is not ip + ":" + port: %s' % sa[-100:])
                 rec.need(pb.endswith('.peer_id') and len(ent_a) == 1 and pb.split('.')[0] in ent_a, 'peers-id-pairing', cf, bi, 'id %s is not taken from the same entry as the address' % pb)
-    # malformed entries skipped: the list builder uses filter_map and no unwrap/?/index
-    lf = [f for f in F.user_fns() if f.path.startswith('tracker_resp::') and any(f.expr_call(bb)[4].get('name') == 'filter_map' for bb in mirq.real_calls(f))]
-    L = C.one(lf, 'peer list builder')
-    for bb in mirq.real_calls(L):
-        n = L.expr_call(bb)[4].get('name')
-        rec.need(n in ('iter', 'filter_map', 'collect', 'into_iter'), 'peerlist-adaptor/' + str(n), L, bb, 'peer list builder uses %s' % n)
-    rec.site(L, None, 'peer list: iter/filter_map/collect only')
+    # malformed entries are skipped, not unwrapped: no panic-capable construct in the list builder or its closures
+    for cf in [L] + [F.fns[c2] for c2 in F.children(L.path)]:
+        for kind, pb, ops in mirq.panic_sites(cf):
+            if kind in ('unwrap', 'expect', 'index', 'bounds', 'panic'):
+                rec.violation('peerlist-panics/' + kind, cf, pb, 'the peer list builder can panic (%s) on a malformed entry instead of skipping it' % kind)
+    rec.site(L, None, 'peer list builder: no unwrap/expect/index')
 
 
 def joiners(F):
